@@ -306,6 +306,11 @@ func c20Mask(c *fw.Ctx) {
 						if strings.Contains(l.Atom, "phi(") && !strings.Contains(l.Atom, "builtin.len(") {
 							carried = true
 						}
+						// ... or an aggregate / object that the loop can write to (an array of flags, a
+						// map, a set, the fields of a verifier object)
+						if strings.Contains(l.Atom, "local:") || strings.Contains(l.Atom, "makemap") || strings.Contains(l.Atom, "makeslice") || strings.Contains(l.Atom, "recv.") {
+							carried = true
+						}
 					}
 					if !carried {
 						stateless = c.P.Pos(fw.InstrPos(r.Ret))
